@@ -18,11 +18,17 @@ stack array) and the theorems say no `none` cell can reach the output.
 * `header_fully_defined` — ustar header writer: starting from an uninitialised
   512-byte array, every one of the 512 bytes handed to `__archive_write_output`
   has been stored to (template copy, then fields, then checksum);
+* `api_all_offered_defined` — the same through the modelled write core: any sequence of
+  open / header / data / finish_entry / close / free calls on a raw or ustar handle, with or
+  without a b64encode/uuencode filter, any callback: every byte offered is initialised (ustar
+  headers come from the fully stored header array, entry padding and the end-of-archive marker
+  from the `calloc`ed null block, the last block from explicit zero stores);
 * `template_covers_header` — the obligation that makes it so, on the extracted
   template and `memcpy` length: a shorter copy breaks the proof.
 -/
 import LA.Lemmas.ClientWriteSession
-import LA.Model.Ustar
+import LA.Lemmas.Ustar
+import LA.Lemmas.WriteCoreDef
 namespace LA.C11
 open LA.CW LA.Ustar LA.Gen.WriteLayout
 
@@ -50,84 +56,82 @@ example : (allEvents (session scriptWriter [] 4 (-1) [[some 1, some 2, some 3]])
   simp [session, runWrites, clientWrite, clientOpen, writeTail, directLoop, flushLoop, poke, clientClose,
     Writer.ask, scriptWriter, lastBlockTarget, lastBlockLen, CState.bufSize, allEvents]
 
-set_option maxRecDepth 8192 in
 /-- The extracted `memcpy(h, &template_header, N)` covers the whole header. -/
-theorem template_covers_header : (templateHeader.take templateCopyLen).length = 512 := by decide
-
-theorem store_defined {h h' : List Cell} {off : Nat} {bs : List Nat} (hs : store h off bs = some h')
-    (hd : ∀ c ∈ h, c.isSome = true) : h'.length = h.length ∧ ∀ c ∈ h', c.isSome = true := by
-  refine ⟨poke_length hs, ?_⟩
-  unfold store poke at hs
-  split at hs
-  · injection hs with hs; subst hs
-    intro c hc
-    rcases List.mem_append.mp hc with hc | hc
-    · rcases List.mem_append.mp hc with hc | hc
-      · exact hd c (List.mem_of_mem_take hc)
-      · obtain ⟨b, _, rfl⟩ := List.mem_map.mp hc; rfl
-    · exact hd c (List.mem_of_mem_drop hc)
-  · cases hs
-
-theorem applyStores_defined : ∀ {ss : List Store} {h h' : List Cell}, applyStores h ss = some h' →
-    (∀ c ∈ h, c.isSome = true) → h'.length = h.length ∧ ∀ c ∈ h', c.isSome = true := by
-  intro ss
-  induction ss with
-  | nil => intro h h' hs hd; simp only [applyStores, Option.some.injEq] at hs; subst hs; exact ⟨rfl, hd⟩
-  | cons s r ih =>
-    intro h h' hs hd
-    obtain ⟨off, bs⟩ := s
-    simp only [applyStores] at hs
-    cases hst : store h off bs with
-    | none => rw [hst] at hs; cases hs
-    | some h1 =>
-      rw [hst] at hs
-      have h1d := store_defined hst hd
-      have := ih hs h1d.2
-      exact ⟨by rw [this.1, h1d.1], this.2⟩
-
-/-- The template copy into the fresh array, followed by any stores, leaves no cell undefined. -/
-theorem applyStores_template {n : Nat} {T : List Nat} {fs : List Store} {h1 : List Cell} (hT : T.length = n)
-    (hs : applyStores (List.replicate n none) ((0, T) :: fs) = some h1) :
-    h1.length = n ∧ ∀ c ∈ h1, c.isSome = true := by
-  have h0 : store (List.replicate n none) 0 T = some (T.map some) := by
-    simp only [store, poke, List.length_map, hT, List.length_replicate, Nat.zero_add, Nat.le_refl, if_true,
-      List.take_zero, List.nil_append]
-    rw [List.drop_of_length_le (by simp)]; simp
-  have hdef0 : ∀ c ∈ T.map some, c.isSome = true := by
-    intro c hc; obtain ⟨b, _, rfl⟩ := List.mem_map.mp hc; rfl
-  simp only [applyStores, h0] at hs
-  have := applyStores_defined hs hdef0
-  exact ⟨by rw [this.1, List.length_map, hT], this.2⟩
+theorem template_covers_header : (templateHeader.take templateCopyLen).length = 512 := template_covers
 
 /-- **C11, ustar header.**  `__archive_write_format_header_ustar` run on an
 uninitialised 512-byte array (all cells `none`): whenever it produces a header,
 that header has 512 bytes and every one of them has been stored to — for every
 entry. -/
 theorem header_fully_defined (e : Entry) (st : Int) (h : List Cell) (hh : formatHeader e = some (st, h)) :
-    h.length = 512 ∧ ∀ c ∈ h, c.isSome = true := by
-  unfold formatHeader at hh
-  simp only [] at hh
-  cases h1s : applyStores (List.replicate 512 none) ((0, templateHeader.take templateCopyLen) :: (fieldStores e).2) with
-  | none => rw [h1s] at hh; cases hh
-  | some h1 =>
-    rw [h1s] at hh
-    have h1d := applyStores_template template_covers_header h1s
-    simp only [] at hh
-    cases hr : readAll (h1.take 512) with
-    | none => rw [hr] at hh; cases hh
-    | some bytes =>
-      rw [hr] at hh
-      simp only [] at hh
-      cases h2s : applyStores h1 [(checksum_offset + 6, [0]),
-          (checksum_offset, (formatOctal ((List.foldl (fun x1 x2 => x1 + x2) 0 bytes : Nat) : Int) 6).1)] with
-      | none => rw [h2s] at hh; cases hh
-      | some h2 =>
-        rw [h2s] at hh
-        injection hh with hh
-        injection hh with _ hh
-        subst hh
-        have := applyStores_defined h2s h1d.2
-        exact ⟨by rw [this.1, h1d.1], this.2⟩
+    h.length = 512 ∧ ∀ c ∈ h, c.isSome = true := formatHeader_defined e st h hh
+
+/-! ### through the write core -/
+
+/-- The API calls of a writing session. -/
+inductive Call
+  | open_
+  | header (e : Entry)
+  | data (d : List Nat)
+  | finishEntry
+  | close
+  | free
+
+open LA.WC in
+def step {σ : Type} (W : Writer σ) (w : σ) (h : Handle) : Call → Int × Handle × List Event × σ
+  | .open_ => apiOpen W w h
+  | .header e => apiHeader W w h e
+  | .data d => apiData W w h (d.map some)
+  | .finishEntry => apiFinishEntry W w h
+  | .close => apiClose W w h
+  | .free => apiFree W w h
+
+/-- All callback invocations of a sequence of API calls (whatever they return). -/
+def runCalls {σ : Type} (W : Writer σ) (w : σ) (h : LA.WC.Handle) : List Call → List Event
+  | [] => []
+  | c :: cs => (step W w h c).2.2.1 ++ runCalls W (step W w h c).2.2.2 (step W w h c).2.1 cs
+
+open LA.WC in
+theorem step_def {σ : Type} (W : Writer σ) (w : σ) (h : Handle) (c : Call) (hc : COk h.cs) :
+    Dfn (step W w h c) := by
+  cases c with
+  | open_ => exact apiOpen_def W w h hc
+  | header e => exact apiHeader_def W w h e hc
+  | data d => exact apiData_def W w h _ hc (cellsDef_map_some d)
+  | finishEntry => exact apiFinishEntry_def W w h hc
+  | close => exact apiClose_def W w h hc
+  | free => exact apiFree_def W w h hc
+
+/-- **C11, modelled writers.**  Start from any handle that has not been opened yet
+(any format among raw/ustar, any filter among none/b64encode/uuencode, any block
+size, last-block setting, open-callback result) and make any sequence of API
+calls with initialised data, against any callback: no uninitialised byte is ever
+offered to the write callback. -/
+theorem api_all_offered_defined {σ : Type} (W : Writer σ) (w : σ) (h : LA.WC.Handle) (hnew : h.cs = none)
+    (calls : List Call) :
+    ∀ e ∈ runCalls W w h calls, ∀ c ∈ e.offer, c.isSome = true := by
+  have hc : LA.WC.COk h.cs := by rw [hnew]; exact LA.WC.cOk_none
+  clear hnew
+  induction calls generalizing w h with
+  | nil => intro e he; cases he
+  | cons c cs ih =>
+    have hs := step_def W w h c hc
+    intro e he
+    simp only [runCalls] at he
+    rcases List.mem_append.mp he with he | he
+    · exact hs.1 e he
+    · exact ih _ _ hs.2 e he
+
+/-- Non-vacuity: a raw archive of 3 bytes through a 4-byte block buffer: one offer, `[1,2,3,0]`. -/
+example : (runCalls scriptWriter [] { fmt := .raw, bpb := 4 }
+    [.open_, .header { pathname := [97] }, .data [1, 2, 3], .close]).map (·.offer) =
+    [[some 1, some 2, some 3, some 0]] := by
+  simp [runCalls, step, LA.WC.apiOpen, LA.WC.checkMagic, LA.WC.filtersOpen, LA.WC.clientOpenStep, LA.WC.apiHeader,
+    LA.WC.apiFinishEntry, LA.WC.hasFinishEntry, LA.WC.formatHeaderOp, LA.WC.apiData, LA.WC.formatDataOp, LA.WC.output,
+    LA.WC.clientFilterWrite, LA.WC.apiClose, LA.WC.formatClose, LA.WC.filtersClose, LA.WC.encCloseStep,
+    LA.WC.clientCloseStep, LA.WC.imin, LA.WC.stCode, LA.WC.ok, LA.WC.warn, LA.WC.fatal, LA.WC.failed,
+    clientWrite, clientOpen, writeTail, directLoop, flushLoop, poke, clientClose, Writer.ask, scriptWriter,
+    lastBlockTarget, lastBlockLen, CState.bufSize]
 
 /-- Non-vacuity: the header writer does produce a header for an ordinary entry. -/
 def exEntry : Entry := {
